@@ -105,7 +105,7 @@ fn runnable(statuses: &[char]) -> Vec<usize> {
     statuses
         .iter()
         .enumerate()
-        .filter(|(_, c)| matches!(c, 'S' | 'G' | 'K' | 'W'))
+        .filter(|(_, c)| matches!(c, 'S' | 'G' | 'K' | 'W' | 'U'))
         .map(|(t, _)| t)
         .collect()
 }
